@@ -388,6 +388,15 @@ def run_property(hm, tier, seed):
     sys.stdout.flush()
 
     env(True)
+    validation_runs = 0
+    if hasattr(hm, "validate"):
+        # concrete validation of the library models used by this harness (regex model, float format contract)
+        n_val, bad = hm.validate()
+        validation_runs = n_val
+        if bad:
+            print("INCONCLUSIVE property=%s model validation failed: %r" % (pid, bad[:3]))
+            return EXIT_INCONCLUSIVE
+        print("  [%s] library models validated against the real implementation on %d cases" % (pid, n_val))
     plan = hm.plan(tier)
     total = core.Stats()
     per_scen = []
@@ -490,7 +499,8 @@ def run_property(hm, tier, seed):
         "property_id": pid, "tier": tier, "seed": seed, "level": "model_checking",
         "coverage": {
             "states": max(1, total.paths), "transitions": max(1, total.decisions),
-            "traces_validated_against_impl": replays_run + int(meta.get("validation_runs", 0)),
+            "traces_validated_against_impl": replays_run + validation_runs,
+            "model_validation_cases": validation_runs,
             "samples": samples,
             "paths_explored": total.paths, "paths_aborted_infeasible": total.paths_aborted,
             "queries": total.obligations + total.feas_queries,
